@@ -361,6 +361,10 @@ def l3_outputs(thorough):
     top1 = 2**4
     for c in (4, 8, 11):
         outs.append((f"1d-2cpu-{c}", 1, 3, 1, t1, 2, [0, c, top1], "hilbert"))
+    # outputs with many passive scalars, some of whose names begin with the name of another (scalar_1 / scalar_10): a predicate
+    # is keyed by the exact name of a variable
+    outs.append(("3d-lm2-2cpu-1100-odd", 3, 3, 2, lm2, 2, [0, 1100, 4096], "hilbert"))
+    outs.append(("2d-3cpu-odd", 2, 3, 1, t2, 3, [0, 70, 150, top2], "hilbert"))
     return outs
 
 
@@ -372,10 +376,10 @@ def build_l3(label, thorough=True):
     octs = tree.all_octs()
     ghosts = {k: {o for i, o in enumerate(octs) if owner[o] != k and i % 2 == 0} for k in range(ncpu)}
     return M1.Output(tree, ncpu=ncpu, owner=owner, ghosts=ghosts, bound_key=bk, ordering=ordering, unit_d=2.0, unit_l=3.0, unit_t=5.0,
-                     boxlen=2.0, hydro="rvp")
+                     boxlen=2.0, hydro="odd" if label.endswith("-odd") else "rvp")
 
 
-def l3_predicates(ndim, L, thorough):
+def l3_predicates(ndim, L, thorough, varnames=()):
     """JSON-able predicate descriptions."""
     n = 2**L
     iv = intervals(n)
@@ -405,6 +409,12 @@ def l3_predicates(ndim, L, thorough):
         preds.append({"kind": "box", "box": {ax: [0, 0] for ax in axes}, "form": form})
         preds.append({"kind": "box+value", "box": {axes[0]: [n // 2, n - 1]}, "q": 0.5, "form": form})
         preds.append({"kind": "value", "q": 0.7, "form": form})
+    # value predicates on every other stored variable, alone, with a box, and two at a time
+    for i, v in enumerate(varnames):
+        preds.append({"kind": "value", "q": 0.5, "var": v})
+        preds.append({"kind": "value", "q": 0.5, "var": v, "op": "le"})
+        preds.append({"kind": "box+value", "box": {axes[i % ndim]: [0, n // 2]}, "q": 0.4, "var": v})
+        preds.append({"kind": "value", "q": 0.3, "var": v, "q2": 0.6, "var2": varnames[(i + 1) % len(varnames)]})
     return preds
 
 
@@ -421,8 +431,22 @@ def l3_select(pred, out, full_density_sorted):
         hi = (b + 0.75) / n * box
         sel["position_" + ax] = (lambda lo, hi: (lambda x: (x > lo * cm) & (x < hi * cm)))(lo, hi)
     thr = None
-    if "q" in pred:
-        thr = full_density_sorted[min(len(full_density_sorted) - 1, int(pred["q"] * len(full_density_sorted)))]
+    if "q" in pred and "var" in pred:
+        # thresholds of the named variables are quantiles of their own values in the full load (passed as a dict of sorted lists)
+        def at_least(t):
+            if pred.get("op") == "le":
+                return lambda d: d <= osyris.Array(t, unit=d.unit)
+            return lambda d: d >= osyris.Array(t, unit=d.unit)
+
+        thr = {}
+        for vk, qk in (("var", "q"), ("var2", "q2")):
+            if vk in pred:
+                vals = full_density_sorted[pred[vk]]
+                thr[pred[vk]] = vals[min(len(vals) - 1, int(pred[qk] * len(vals)))]
+                sel[pred[vk]] = at_least(thr[pred[vk]])
+    elif "q" in pred:
+        dens = full_density_sorted["density"] if isinstance(full_density_sorted, dict) else full_density_sorted
+        thr = dens[min(len(dens) - 1, int(pred["q"] * len(dens)))]
         sel["density"] = lambda d: d >= thr * osyris.units("g/cm**3")
     # the same predicates as other kinds of callables
     form = pred.get("form", "lambda")
@@ -479,7 +503,10 @@ def l3_filter(full_mesh, pred, out, thr):
         else:
             x = np.asarray(full_mesh["position"][1][ax][1])
         keep &= (x > lo) & (x < hi)
-    if thr is not None:
+    if isinstance(thr, dict):
+        for v, t in thr.items():
+            keep &= (np.asarray(full_mesh[v][2]) <= t) if pred.get("op") == "le" else (np.asarray(full_mesh[v][2]) >= t)
+    elif thr is not None:
         keep &= np.asarray(full_mesh["density"][2]) >= thr
     return keep
 
@@ -516,10 +543,11 @@ def layer3(payload):
             out.write(d)
             ds, _ = _load.load(d, out.nout)
             full = C13.snapshot(ds)["mesh"]
-            dens = sorted(full["density"][2])
-            for pi, pred in enumerate(l3_predicates(out.ndim, out.tree.levelmax, thorough)):
+            varnames = [v for v, _ in out.hydro if v != "density"] if label.endswith("-odd") else []
+            dens = {v: sorted(full[v][2]) for v in ["density"] + varnames}
+            for pi, pred in enumerate(l3_predicates(out.ndim, out.tree.levelmax, thorough, varnames)):
                 problems, info = l3_case(out, d, full, dens, pred)
-                acc.case(nontrivial=info.get("files", out.ncpu) < out.ncpu or 0 < info.get("rows", 0) < len(dens),
+                acc.case(nontrivial=info.get("files", out.ncpu) < out.ncpu or 0 < info.get("rows", 0) < len(dens["density"]),
                          outcome="pruned" if info.get("files", out.ncpu) < out.ncpu else "all-files")
                 for sig, det in problems:
                     acc.violation("C04:" + sig, (1000 + oi, pi), {"layer": 3, "output": label, "pred": pred}, det)
@@ -665,7 +693,7 @@ def replay_layer3(case):
         out.write(d)
         ds, _ = _load.load(d, out.nout)
         full = C13.snapshot(ds)["mesh"]
-        dens = sorted(full["density"][2])
+        dens = {v: sorted(full[v][2]) for v in full if full[v][0] == "A"}
         if "cpu_list" in case:
             problems, _ = l3_cpu_case(out, d, full, case["cpu_list"])
         else:
